@@ -78,7 +78,7 @@ func (r *Run) Execute(or OracleSet) (err error) {
 	for h, ips := range cfg.World.DNS {
 		r.dns[h] = ips
 	}
-	r.ha.RefuseBadConfig = or.Converge || or.Loadable && false
+	r.ha.RefuseBadConfig = or.Converge
 	c, err := r.StartController()
 	if err != nil {
 		return fmt.Errorf("start controller: %w", err)
